@@ -132,6 +132,7 @@ Record path := {
   p_trailer : trailer
 }.
 
+Definition msg_stdin : byte := x03.
 Definition msg_stdout : byte := x04.
 Definition msg_exit : byte := x08.
 
@@ -143,11 +144,22 @@ Definition P_shellpty : path := {| p_buf := 16355; p_prefix := [msg_stdout]; p_s
 Definition P_shellout : path := {| p_buf := 16355; p_prefix := [msg_stdout]; p_sender := Split; p_trailer := TrNone |}.
 Definition P_file : path := {| p_buf := 16256; p_prefix := []; p_sender := Split; p_trailer := TrFinSealedEmpty |}.
 
+(** Shell client -> server ([forwardShellClientData] with
+    [splitShellClientMessage]): a STDIN message whose payload exceeds
+    [MaxPayloadSize - EncryptionOverhead - 1] bytes is cut into STDIN messages
+    of at most that many payload bytes; each message is sealed and sent as one
+    frame with SendToPeer. *)
+Definition P_shellin : path := {| p_buf := 16355; p_prefix := [msg_stdin]; p_sender := Direct; p_trailer := TrNone |}.
+
+(** ... and before the repair: no chunking at all (the "buffer" is as large as
+    the message). *)
+Definition P_shellin_pre_fix : path := {| p_buf := 4294967296; p_prefix := [msg_stdin]; p_sender := Direct; p_trailer := TrNone |}.
+
 (** The shell output paths as they were before the repair (16 KiB reads). *)
 Definition P_shellpty_pre_fix : path := {| p_buf := 16384; p_prefix := [msg_stdout]; p_sender := Split; p_trailer := TrExit |}.
 Definition P_shellout_pre_fix : path := {| p_buf := 16384; p_prefix := [msg_stdout]; p_sender := Split; p_trailer := TrNone |}.
 
-Definition all_paths : list path := [P_meshconn; P_exit; P_shellpty; P_shellout; P_file].
+Definition all_paths : list path := [P_meshconn; P_exit; P_shellpty; P_shellout; P_shellin; P_file].
 
 (** The arithmetic condition under which a path is sound. *)
 Definition path_fits (pa : path) : bool :=
